@@ -340,7 +340,36 @@ func c16Run(actors []c16Actor, prefix, expectN []int) (*sched.Result, *c16Env, [
 			if eng.VerifStreams() != 0 {
 				end = append(end, fmt.Sprintf("stream-leak: %d streams still registered", eng.VerifStreams()))
 			}
+			// a session transaction that is open when the engine shuts down: its calls are calls after shutdown too
+			var lateSess lungo.ISession
+			if len(end) == 0 {
+				if sess, err := w.Client.StartSession(); err == nil && sess.StartTransaction() == nil {
+					_ = lungo.WithSession(w.Ctx, sess, func(sc lungo.ISessionContext) error {
+						_, err := w.C("d", "c").InsertOne(sc, bD("_id", "in-open-transaction"))
+						if err != nil {
+							end = append(end, "probe-write-fails: inside a fresh session transaction: "+err.Error())
+						}
+						return nil
+					})
+					lateSess = sess
+				}
+			}
 			w.Close()
+			if lateSess != nil {
+				_ = lungo.WithSession(w.Ctx, lateSess, func(sc lungo.ISessionContext) error {
+					if _, err := w.C("d", "c").InsertOne(sc, bD("_id", "late-in-transaction")); !errors.Is(err, lungo.ErrEngineClosed) {
+						end = append(end, fmt.Sprintf("after-close:InsertOne inside the session transaction that was open at shutdown returned %v", err))
+					}
+					if _, err := w.C("d", "c").CountDocuments(sc, bD()); !errors.Is(err, lungo.ErrEngineClosed) {
+						end = append(end, fmt.Sprintf("after-close:CountDocuments inside the session transaction that was open at shutdown returned %v", err))
+					}
+					return nil
+				})
+				if err := lateSess.CommitTransaction(w.Ctx); !errors.Is(err, lungo.ErrEngineClosed) {
+					end = append(end, fmt.Sprintf("after-close:CommitTransaction of the session transaction that was open at shutdown returned %v", err))
+				}
+				lateSess.EndSession(w.Ctx)
+			}
 		}
 		// after shutdown every call returns the closed error without blocking
 		if _, err := eng.Begin(nil, true); !errors.Is(err, lungo.ErrEngineClosed) {
